@@ -143,6 +143,14 @@ def signatures(pm: ProgramModel, ctx: Ctx) -> None:
         eq = ci.methods.get("__eq__")
         hs = ci.methods.get("__hash__")
         if eq is None or hs is None:
+            it0 = Interp(pm)
+            it0.ensure_built(ci)
+            de, dh = it0.class_lookup(ci, "__eq__"), it0.class_lookup(ci, "__hash__")
+            if de is not None and dh is not None and not (dh[0] == "value" and dh[1] is None):
+                # installed on the class when it is created (a class decorator, a base class): no signature to read
+                ctx.unverified("C20-EQSIG", f"shape:{cname}", loc(ci.unit.path, ci.node),
+                               "__eq__/__hash__ are not written in the class body; decided by the witness rules only")
+                continue
             ctx.violation("C20-HASHEQ", f"defined:{cname}", loc(ci.unit.path, ci.node),
                           f"{cname} does not define both __eq__ and __hash__ (a class defining "
                           f"__eq__ alone is unhashable; neither: identity semantics)")
@@ -195,10 +203,11 @@ def witnesses(pm: ProgramModel, ctx: Ctx) -> None:
     mb = ModelBuilder(pm)
 
     def eq(a: AObj, b: AObj) -> Any:
-        m = pm.method(pm.cls(a._cls), "__eq__")
-        assert m is not None
+        m = it.special(a, "__eq__")
+        if m is None:
+            return a is b
         try:
-            return bool(it.call(m, [a, b]))
+            return bool(it.truth(it.apply_value(m, [a, b], {}, ast.Constant(value=None), "", None)))
         except AbsRaise as exc:
             return ("raise", exc.what)
 
